@@ -142,6 +142,13 @@ def ns_extra_for(scenario):
             if c is not None:
                 vals = sorted(set(v for v in c[2] if v is not None))
                 out[name] = vals
+        for var in ("x", "z", "w"):
+            c = F.col(spec, var)
+            if c is not None:
+                vals = sorted(v for v in c[2] if v is not None)
+                if len(vals) >= 4:
+                    # three interior knots inside the range of the first training frame
+                    out[f"kn_{var}"] = [vals[len(vals) // 4], vals[len(vals) // 2], vals[(3 * len(vals)) // 4]]
     return out
 
 
